@@ -1075,7 +1075,15 @@ func (f *Frame) binop(op token.Token, a, b *SVal, rt types.Type, pos token.Pos) 
 		g.usedStr = true
 		switch op {
 		case token.ADD:
-			return scalar(rt, KString, sApp("str_cat", a.Term, b.Term))
+			r := sApp("str_cat", a.Term, b.Term)
+			// ground instance of the concatenation-length axiom (the quantified axiom is only available in
+			// the full stage)
+			if g.inQuant == 0 {
+				sum := sApp("bvadd", sApp("strlen", a.Term), sApp("strlen", b.Term))
+				g.assume(f.curReach, sImp(sApp("bvsle", sum, "#x0001000000000000"), sEq(sApp("strlen", r), sum)))
+				g.assume(f.curReach, sAnd(sApp("bvsle", bv64(0), sApp("strlen", a.Term)), sApp("bvsle", sApp("strlen", a.Term), "#x0001000000000000"), sApp("bvsle", bv64(0), sApp("strlen", b.Term)), sApp("bvsle", sApp("strlen", b.Term), "#x0001000000000000")))
+			}
+			return scalar(rt, KString, r)
 		case token.EQL:
 			return scalar(rt, KBool, sEq(a.Term, b.Term))
 		case token.NEQ:
